@@ -857,7 +857,10 @@ fn gen_main(seed: u64, count: usize, kinds: &str, maxn: usize) {
         let fails: Vec<usize> = (0..n).filter(|_| rng.chance(15)).collect();
         let mut sessions = vec![];
         let hist = has("hist");
-        let nsess = if hist { 2 + rng.below(3) as usize } else { 1 };
+        // histories: 2-4 runs; now and then several hundred short stream runs on one value (per-graph
+        // counters of a few bits)
+        let many_streams = hist && has("stream") && rng.chance(2);
+        let nsess = if many_streams { 257 + rng.below(8) as usize } else if hist { 2 + rng.below(3) as usize } else { 1 };
         let mut prev_api: Option<String> = None;
         // histories: sometimes all runs share ONE caller-owned InterruptibilityState (reborrow)
         let case_shared: Option<Strat> = if hist && cfg!(feature = "intr") && rng.chance(40) {
@@ -865,7 +868,14 @@ fn gen_main(seed: u64, count: usize, kinds: &str, maxn: usize) {
         } else {
             None
         };
-        for _ in 0..nsess {
+        for si in 0..nsess {
+            // … followed by two ordinary runs
+            if many_streams && si + 2 < nsess {
+                let api = (*rng.pick(&["stream", "stream_with"])).to_string();
+                let cfg = RunCfg { api, rev: false, limit: None, strat: Strat::Non, incl: true, ord: 0 };
+                sessions.push(Session { cfgs: vec![cfg], coop: false, auto: 0, shared: false, late: false, chain: 0, script: Some(vec![vec![Act::Poll { run: 0 }], vec![Act::DropStream { run: 0 }]]) });
+                continue;
+            }
             let pick = rng.below(100);
             if has("pair") && pick < 50 {
                 let sa = has("stream") && rng.chance(30);
